@@ -203,9 +203,9 @@ pub fn eval(expr: Node) -> Result<i64, Box<dyn error::Error>> {
             }
         }
         Avg(args) => {
-            let mut result = 0;
+            let mut result: i64 = 0;
             for arg in <Vec<Node> as Clone>::clone(&args).into_iter() {
-                result += eval(arg)?;
+                result = result.checked_add(eval(arg)?).ok_or("Integer overflow")?;
             }
             let len = args.len() as i64;
             Ok(result / len)
@@ -218,7 +218,10 @@ pub fn eval(expr: Node) -> Result<i64, Box<dyn error::Error>> {
             results.sort_by(|a, b| a.partial_cmp(b).unwrap());
             let len = results.len();
             if len % 2 == 0 {
-                Ok((results[len >> 1] + results[(len >> 1) - 1]) / 2)
+                Ok(results[len >> 1]
+                    .checked_add(results[(len >> 1) - 1])
+                    .ok_or("Integer overflow")?
+                    / 2)
             } else {
                 Ok(results[len >> 1])
             }
